@@ -271,7 +271,7 @@ func (f *frame) autoInvariants(li *loopInfo, st *State, phiTerm func(p *ssa.Phi)
 					continue
 				}
 				qv := q(t.B.fresh("?p"))
-				out = append(out, fmt.Sprintf("(forall ((%s Int)) (! (=> (and (<= 0 %s) (<= %s %s)) (= (select %s %s) (select %s %s))) :pattern ((select %s %s))))", qv, qv, qv, pre.alloc, cur, qv, old, qv, cur, qv))
+				out = append(out, fmt.Sprintf("(forall ((%s Int)) (! (=> (and (<= 0 %s) (<= %s %s)) (= (select %s %s) (select %s %s))) :pattern ((select %s %s)) :qid e16_exec_274))", qv, qv, qv, pre.alloc, cur, qv, old, qv, cur, qv))
 			}
 		}
 	}
@@ -378,7 +378,7 @@ func (f *frame) enterLoop(li *loopInfo, es []edge) (string, *State, error) {
 			st.trace = t.B.declConst(t.B.fresh("trace@loop"), "(Array Int Event)")
 			st.ntrace = t.B.declConst(t.B.fresh("ntrace@loop"), "Int")
 			cond = and(cond, fmt.Sprintf("(>= %s %s)", st.ntrace, oldN),
-				fmt.Sprintf("(forall ((?i Int)) (! (=> (and (<= 0 ?i) (< ?i %s)) (= (select %s ?i) (select %s ?i))) :pattern ((select %s ?i))))", oldN, st.trace, oldT, st.trace))
+				fmt.Sprintf("(forall ((?i Int)) (! (=> (and (<= 0 ?i) (< ?i %s)) (= (select %s ?i) (select %s ?i))) :pattern ((select %s ?i)) :qid e17_exec_381))", oldN, st.trace, oldT, st.trace))
 		}
 	}
 	if r := f.rangeMapInfo(li); r != nil {
